@@ -27,9 +27,12 @@ from ..gen import ast as A
 from ..gen import gen
 from ..gen.ref import Interp, Fault, Budget, Env
 from ..run import pmap, Scratch
-from .c03 import SWEEP_FEATURES
+from .c03 import SWEEP_FEATURES as C03_FEATURES
 
 LEVEL = "exploration"
+# the conservative feature set of C03's sweep (constructs on which nanoc's evaluator is known to disagree stay out);
+# multi-file programs are part of the sweep, and a dedicated multi-file part puts the assertion into the imported block
+SWEEP_FEATURES = dict(C03_FEATURES)
 FIND = os.path.join(VERIF, "findings", "C06")
 
 K_IMPORTED = "imported-module-block-not-gating"
@@ -361,6 +364,8 @@ class Case:
         self.intent = intent
         self.tags = tags
         self.prog = prog
+        self.kind = "sweep"
+        self.imported = set(f.name for m in prog.modules for f in m.funcs) if prog is not None else set()
 
 
 def observe(plain, d, files):
@@ -465,7 +470,6 @@ def run(ctx):
                 continue
             c = Case(i, "m%05d" % i, p2.files(), T, block_order(p2), list(intent["removed"]), intent, frozenset(prog.tags), p2)
             c.kind = kind
-            c.imported = set(f.name for m in p2.modules for f in m.funcs)
             multi_cases.append(c)
         # the hand-written witness and its controls
         fixed = [
@@ -513,10 +517,9 @@ def run(ctx):
                 hist["watchdog"] = hist.get("watchdog", 0) + 1
                 continue
             outcome, viol = judge(c, r, exists)
-            multi = hasattr(c, "kind")
             failing = [f for f, a in c.T.items() if not all(a)]
             # the known finding: every block that executes a false assertion belongs to an imported module
-            if multi and outcome == "false-assertion-built" and failing and all(f in c.imported for f in failing):
+            if outcome == "false-assertion-built" and failing and c.imported and all(f in c.imported for f in failing):
                 viol = [(k, m) for k, m in viol if k != "gate-open"]
                 ctx.violation(K_IMPORTED, "%s: %s" % (c.label, "a false assertion in the shadow block of an imported module's function does not gate"),
                               dict(c.files))
